@@ -138,3 +138,7 @@ class GenTtlMode(TtlMode):
 
 def modes(tier):
     return [TtlMode(), GenTtlMode(), RelayMode("C02")]   # relay: codes as the handlers and the websocket admission use them (die with the booking)
+
+# whole histories of API calls over the translated handlers and stores (Relay/Tie/AccessE2E.lean): translated_code_single_use, translated_old_code_refused
+from tiecommon import TIE_ACCESS
+THEOREMS = THEOREMS + TIE_ACCESS
